@@ -84,7 +84,7 @@ pub fn cmd_lin(seed: u64, n: usize, out: &mut dyn Write, dirs: &[String]) {
 
 // ------------------------------------------------------------------------------------------------
 // Direct generator of well-typed, non-linear AxCut programs with unique binders.
-//  * types T0..Tk, stratified (the fields of Ti mention only Tj with j < i), 1-4 xtors, 0-8 fields
+//  * types T0..Tk, stratified (the fields of Ti mention only Tj with j < i, or `cns Ti` itself), 1-4 xtors, 0-8 fields
 //    of chirality ext/prd/cns; for a type T, `x: prd T` is built by `let` and consumed by `switch`,
 //    `k: cns T` is built by `create` and consumed by `invoke`
 //  * definitions f0..fm; all but some leaf definitions take a counter as first parameter; forward
@@ -142,7 +142,9 @@ impl<'a> Gen<'a> {
                 let nf = match self.rng.below(6) { 0 => 0, 1 => 1, 2 => 2, 3 => self.rng.range(0, 4), 4 => self.rng.range(3, 8), _ => self.rng.range(0, 3) };
                 let mut args = Vec::new();
                 for f in 0..nf {
-                    let kt = self.random_kt(i);
+                    // consumer fields may mention the type being declared (recursive codata: an object passed
+                    // to its own method, `invoke k X(.., k, ..)`); producers stay stratified so `obtain` terminates
+                    let kt = if self.rng.chance(1, 5) { (Chirality::Cns, Ty::Decl(ident(&format!("T{i}"), 0))) } else { self.random_kt(i) };
                     // xtor signatures carry their own (unused) variable names; ids 0 like the front end
                     args.push(ContextBinding { var: ident(&format!("a{f}"), 0), chi: kt.0, ty: kt.1 });
                 }
